@@ -5,7 +5,7 @@ an arbitrarily nested type universe, all values.  Tie: T-corr, the extracted mod
 Codec<T> triplets / LoggerImpl::log_statement / the manually driven backend, on ~75 C++ instantiations
 (harness/codec.cpp + generated harness/codec_sigs.h), plus the property monitor evaluated directly on the
 implementation (sizes equal, consumed = written, async text = call-site text after sanitisation)."""
-import json, os, sys, threading, time
+import json, os, re, select, subprocess, sys, tempfile, threading, time
 from vlib import Check, standard_proof_phase, correspond, ddmin, VERIF, tree_hash
 
 PID = 'C04'
@@ -150,8 +150,9 @@ class G:
 
     def slen(s):
         r = s.rng.random()
-        if s.huge and r < 0.5:
-            s.huge = False; n = s.rng.choice(HUGE_LENS); s.hit.add('len%d' % n); return n
+        if s.huge:
+            n = s.huge if s.huge is not True else s.rng.choice(HUGE_LENS)
+            s.huge = False; s.hit.add('len%d' % n); return n
         if r < 0.35:
             n = s.rng.choice(BOUNDARY_LENS); s.hit.add('len%d' % n); return n
         return s.rng.randint(0, 24)
@@ -294,7 +295,8 @@ def gen(rng, n, cid0=0):
         if sig in TUPLE_SREF: continue
         for _ in range(3): add(sig)
     for sig in (11, 15, 16, 18, 31, 42, 98):
-        add(sig, huge=True, maxn=2)
+        for ln in HUGE_LENS:
+            add(sig, huge=ln, maxn=2)
     while len(cases) < n:
         sig = rng.choice(ids)
         if sig in TUPLE_SREF: continue
@@ -464,22 +466,97 @@ def part_of(case):
     return 0
 
 
+class Proc:
+    """one harness process fed case by case; a crash or hang is an observation of that case and the
+    process is restarted for the next one (so a defect that kills the backend costs one restart per
+    failing case, not one process per remaining case)"""
+    def __init__(s, exe, sidefile):
+        s.exe = exe; s.sidefile = sidefile; s.p = None; s.errf = None
+        s.env = dict(os.environ)
+        s.env.setdefault('ASAN_OPTIONS', 'detect_leaks=0:abort_on_error=0:exitcode=99')
+        s.env.setdefault('UBSAN_OPTIONS', 'print_stacktrace=1:halt_on_error=1:exitcode=98')
+
+    def start(s):
+        s.errf = tempfile.TemporaryFile()
+        s.p = subprocess.Popen([s.exe, s.sidefile], stdin=subprocess.PIPE, stdout=subprocess.PIPE, stderr=s.errf, env=s.env)
+        s.buf = b''
+
+    def stop(s):
+        if s.p:
+            try:
+                s.p.stdin.close()
+            except OSError:
+                pass
+            try:
+                s.p.wait(timeout=5)
+            except subprocess.TimeoutExpired:
+                s.p.kill(); s.p.wait()
+            s.p = None
+        if s.errf: s.errf.close(); s.errf = None
+
+    def kill(s):
+        if s.p:
+            s.p.kill(); s.p.wait(); s.p = None
+        if s.errf: s.errf.close(); s.errf = None
+
+    def one(s, case, timeout=20):
+        if s.p is None: s.start()
+        data = (case + '\n').encode()
+        fd_in = s.p.stdin.fileno(); fd_out = s.p.stdout.fileno()
+        deadline = time.time() + timeout
+        off = 0
+        while True:
+            nl = s.buf.find(b'\n')
+            if nl >= 0 and off >= len(data):
+                line = s.buf[:nl].decode(); s.buf = s.buf[nl + 1:]
+                return line
+            left = deadline - time.time()
+            if left <= 0:
+                s.kill(); return 'HANG'
+            wl = [fd_in] if off < len(data) else []
+            r, w, _ = select.select([fd_out], wl, [], min(left, 1.0))
+            if w:
+                try:
+                    off += os.write(fd_in, data[off:off + 65536])
+                except (BrokenPipeError, OSError):
+                    off = len(data)
+            if r:
+                chunk = os.read(fd_out, 1 << 16)
+                if not chunk:
+                    rc = s.p.wait()
+                    s.errf.seek(0); err = s.errf.read().decode('utf8', 'replace')
+                    m = re.search(r'(AddressSanitizer: [\w-]+|runtime error: [^\n]{0,80}|terminate called[^\n]{0,80})', err)
+                    s.p = None; s.errf.close(); s.errf = None
+                    return 'CRASH ' + (m.group(1).replace(' ', '_') if m else 'rc=%s' % rc)
+                s.buf += chunk
+
+
+MAX_DEATHS = 12
+
+
 def run_impl_parts(ck, exes, cases, tag):
-    """route each case to the binary holding its instantiation; returns (lines, side dict)"""
+    """route each case to the binary holding its instantiation; returns (lines, side dict).
+    After MAX_DEATHS crashes/hangs of one binary its remaining cases are not run (line None)."""
     lines = [None] * len(cases); side = {}
     groups = {}
     for idx, c in enumerate(cases): groups.setdefault(part_of(c), []).append(idx)
-    res = {}
+    sfs = {}
     def job(k, idxs):
         sf = os.path.join(ck_out(), 'c04-side-%s-%d.txt' % (tag, k))
         if os.path.exists(sf): os.remove(sf)
-        res[k] = (ck.run_impl(exes[k], [cases[i] for i in idxs], timeout=600, args=[sf]), sf)
+        sfs[k] = sf
+        pr = Proc(exes[k], sf); deaths = 0
+        for i in idxs:
+            l = pr.one(cases[i])
+            lines[i] = l
+            if l.startswith('CRASH') or l == 'HANG':
+                deaths += 1
+                if deaths >= MAX_DEATHS: break
+        pr.stop()
     th = [threading.Thread(target=job, args=(k, idxs)) for k, idxs in groups.items()]
     for t in th: t.start()
     for t in th: t.join()
-    for k, idxs in groups.items():
-        ls, sf = res[k]
-        for i, l in zip(idxs, ls): lines[i] = l
+    for k, sf in sfs.items():
         if os.path.exists(sf):
             for l in open(sf):
                 try:
@@ -530,6 +607,11 @@ def run(tier):
     cases = batch_corpus + gcases + aux
     ml = ck.run_model(mexe, cases)
     il, side = run_impl_parts(ck, exes, cases, 'main')
+    skipped = [i for i, l in enumerate(il) if l is None]
+    if skipped:
+        ck.notes.append('%d cases not run after %d crashes/hangs of a harness binary' % (len(skipped), MAX_DEATHS))
+        keep = [i for i, l in enumerate(il) if l is not None]
+        cases = [cases[i] for i in keep]; ml = [ml[i] for i in keep]; il = [il[i] for i in keep]
     monitor = make_monitor(side)
 
     def shrink(case, mode):
@@ -562,6 +644,8 @@ def run(tier):
             e2e.append(make_case(cid, sig, G(ck.rng, big_unordered=True, maxn=6), ck.rng))
     ml2 = ck.run_model(mexe, e2e)
     il2, side2 = run_impl_parts(ck, exes, e2e, 'e2e')
+    keep = [i for i, l in enumerate(il2) if l is not None]
+    e2e = [e2e[i] for i in keep]; ml2 = [ml2[i] for i in keep]; il2 = [il2[i] for i in keep]
     dis2, mon2 = correspond(ck, 'M-CODEC vs unordered containers (sizes only)', e2e, ml2, il2, monitor=make_monitor(side2), shrink=shrink, known_match=make_known_match(side2))
 
     # open findings: replay each one on the implementation (own process: some of them crash it)
